@@ -540,8 +540,10 @@ class Parser:
                 self.expect(":")
                 is_mutref = (self.at("&") and self.at("mut", 1)) or (self.at("&") and self.peek(1)[0] == "life" and self.at("mut", 2))
                 pty = self.ty()
-                if is_mutref and not (pty[0] == "ty" and pty[1] == "Formatter"):
-                    raise Unsupported("&mut parameter")         # (only an output Formatter is supported)
+                if is_mutref and pty[0] == "ty" and pty[1] in ("slice", "Vec") and len(pty[2]) == 1:
+                    pty = ("ty", "mutslice", pty[2])            # an in-out parameter: returned with the result
+                elif is_mutref and not (pty[0] == "ty" and pty[1] == "Formatter"):
+                    raise Unsupported("&mut parameter")         # (only slices / Vecs and an output Formatter)
                 params.append((pat[1], pty))
             if not self.accept(","):
                 break
@@ -1086,7 +1088,15 @@ def is_z(ty):
 
 
 def is_list(ty):
-    return ty is not None and ty[0] == "ty" and ty[1] in ("slice", "Vec")
+    return ty is not None and ty[0] == "ty" and ty[1] in ("slice", "Vec", "mutslice")
+
+
+def is_outparam_ty(t):
+    return t is not None and t[0] == "ty" and t[1] in ("Formatter", "mutslice")
+
+
+def outparam_ret_ty(t):
+    return T("String") if t[1] == "Formatter" else T("Vec", t[2][0])
 
 
 def is_deque(ty):
@@ -1189,7 +1199,7 @@ class Ctx:
             return "(option %s)" % self.coq_ty(args[0])
         if name == "Result" and len(args) == 2:
             return "(result %s %s)" % (self.coq_ty(args[0]), self.coq_ty(args[1]))
-        if name in ("slice", "Vec"):
+        if name in ("slice", "Vec", "mutslice"):
             return "(list %s)" % self.coq_ty(args[0])
         if name in ("str", "String", "Formatter"):
             return "(list N)"             # a Formatter is the text written so far
@@ -1235,7 +1245,7 @@ def same_type(a, b):
     if a[0] == "tup":
         return len(a[1]) == len(b[1]) and all(same_type(x, y) for x, y in zip(a[1], b[1]))
     na = "slice" if a[1] in ("slice", "Vec") and b[1] in ("slice",) else a[1]
-    if a[1] != b[1] and not ({a[1], b[1]} <= {"str", "String"}):
+    if a[1] != b[1] and not ({a[1], b[1]} <= {"str", "String"}) and not ({a[1], b[1]} <= {"slice", "Vec", "mutslice"}):
         return False
     return len(a[2]) == len(b[2]) and all(same_type(x, y) for x, y in zip(a[2], b[2]))
 
@@ -1365,15 +1375,16 @@ class FnTranslator:
         self.ret_k = lambda v: "Some %s" % self.finish(v)
         self.full_ret = self.ret if not mutself else (T(impl) if self.ret == UNIT else ("tup", [T(impl), self.ret]))
         # a `&mut Formatter` parameter is an output buffer: the text is returned with the result
-        self.outparam = next((n for n, t in self.params if t is not None and t[0] == "ty" and t[1] == "Formatter"), None)
-        if self.outparam is not None:
+        self.outparams = [n for n, t in self.params if is_outparam_ty(t)]
+        self.outparam = self.outparams[0] if self.outparams else None
+        if self.outparams:
             if mutself:
-                raise Unsupported("&mut self together with a Formatter parameter")
-            self.full_ret = ("tup", [T("String"), self.ret])
+                raise Unsupported("&mut self together with a &mut parameter")
+            self.full_ret = ("tup", [outparam_ret_ty(t) for n, t in self.params if is_outparam_ty(t)] + [self.ret])
 
     def finish(self, v):
-        if self.outparam is not None:
-            return "(%s, %s)" % (var(self.outparam), v)
+        if self.outparams:
+            return "(%s, %s)" % (", ".join(var(n) for n in self.outparams), v)
         if not self.mutself:
             return v
         return var("self") if self.ret == UNIT else "(%s, %s)" % (var("self"), v)
@@ -1648,7 +1659,7 @@ class FnTranslator:
                         return T("usize")
                     if m == "is_empty":
                         return T("bool")
-                    if m in ("iter", "to_vec", "clone", "collect", "into_boxed_slice", "as_ref", "as_slice"):
+                    if m in ("iter", "to_vec", "clone", "collect", "into_boxed_slice", "as_ref", "as_slice", "as_mut_slice"):
                         return rt
                     if m in ("max", "min") and not e[3]:
                         return T("Option", rt[2][0])
@@ -2004,7 +2015,7 @@ class FnTranslator:
             rt = self.ty_of(e[1], env)
             if m in MUTATING_METHODS or m == "into":
                 return None
-            if m in ("iter", "clone", "to_vec", "copied", "cloned", "into_boxed_slice", "as_ref", "as_slice") and not e[3] \
+            if m in ("iter", "clone", "to_vec", "copied", "cloned", "into_boxed_slice", "as_ref", "as_slice", "as_mut_slice") and not e[3] \
                     and not (rt and rt[0] == "ty" and (rt[1], m) in self.c.fn_info):
                 return self.pure(e[1], env)
             if m in ("max", "min") and not e[3] and is_list(rt) and is_int(rt[2][0]) and not is_nat(rt[2][0]):
@@ -2270,8 +2281,8 @@ class FnTranslator:
             if op in ("&&", "||"):
                 def after_a(a):
                     t = self.c.fresh()
-                    if has_exit(e[3]):
-                        raise Unsupported("early exit in the right operand of %s" % op)
+                    if has_exit(e[3]) or self.has_inout_call(e[3]):
+                        raise Unsupported("effect in the right operand of %s" % op)
                     rhs = self.tr(e[3], env, RETURN)
                     if op == "&&":
                         return "do %s <- (if %s then %s else Some false);\n%s" % (t, a, rhs, k(t))
@@ -2372,6 +2383,19 @@ class FnTranslator:
                     if info["fuel"]:
                         self.uses_fuel = True
                     t = self.c.fresh()
+                    outs = [i for i, (n_, pt) in enumerate([q for q in info["params"] if q[0] != "self"]) if is_outparam_ty(pt)]
+                    if outs:
+                        # in-out arguments: the callee returns their new values with its result
+                        names = [self.c.fresh("o") for _ in outs]
+                        res = self.c.fresh()
+                        code = "do %s <- %s;\nlet '(%s, %s) := %s in\n" % (t, call, ", ".join(names), res, t)
+                        for i_, nm in zip(outs, names):
+                            place = e[2][i_]
+                            while place[0] == "unary" and place[1] in ("&", "&mut", "*"):
+                                place = place[2]
+                            root, term = self.place_update(place, nm, env)
+                            code += "let %s := %s in\n" % (var(root), term)
+                        return code + k(res)
                     return "do %s <- %s;\n%s" % (t, call, k(t))
                 return k(self.pure(("call", f, [("rawterm", a, None) for a in args]), env, want))
             return self.tr_list(e[2], env, with_args, ptys)
@@ -2603,6 +2627,10 @@ class FnTranslator:
                 t = self.c.fresh()
                 return "do %s <- nth_error %s %s;\n%s" % (t, r, a, k(t))
             return self.tr(e[1], env, lambda r: self.tr(e[2], env, lambda a: ix(r, a), T("usize")))
+        if kind == "if" and e[1][0] == "binary" and e[1][1] == "&&" and self.has_inout_call(e[1][3]):
+            # the right operand updates an in-out argument: if a && b {T} else {E}  ==  if a { if b {T} else {E} } else {E}
+            els0 = e[3] if e[3] is not None else ("block", [], None)
+            return self.tr(("if", e[1][2], ("block", [], ("if", e[1][3], e[2], els0)), els0), env, k, want)
         if kind == "if":
             els = e[3] if e[3] is not None else ("block", [], None)
 
@@ -2656,10 +2684,50 @@ class FnTranslator:
     break_k = None
     continue_k = None
 
+    def has_inout_call(self, e):
+        """does e call a translated function with an in-out (&mut slice / Formatter) parameter?"""
+        found = []
+
+        def f(x):
+            if x[0] == "call" and x[1][0] == "path":
+                info = self.lookup_fn(x[1][1])
+                if info and any(is_outparam_ty(pt) for (_n, pt) in info["params"]):
+                    found.append(x)
+        walk(e, f)
+        return bool(found)
+
     def tr_mutcall(self, e, env, k, info):
         """recv.method(args) where method takes &mut self: recv is rebound to the new value"""
         recv = e[1]
         ptys = [pt for (n_, pt) in info["params"] if n_ != "self"]
+
+        if recv[0] == "index" and recv[2][0] != "range":
+            # v[i].method(args) with &mut self: read the element (panics when i is out of bounds), call, write back
+            base = recv[1]
+
+            def with_ix(i_):
+                def with_args_ix(args):
+                    bterm = self.pure(base, env)
+                    if bterm is None:
+                        raise Unsupported("&mut method on an element of a computed place")
+                    el = self.c.fresh("e")
+                    call = "M_%s%s %s%s" % (info["coq"], " fuel" if info["fuel"] else "", el, "".join(" " + a for a in args))
+                    if info["fuel"]:
+                        self.uses_fuel = True
+                    t = self.c.fresh()
+                    if info["ret"] == UNIT:
+                        newv, res = t, "tt"
+                        bind = "do %s <- nth_error %s %s;\ndo %s <- %s;\n" % (el, bterm, i_, t, call)
+                    else:
+                        t2 = self.c.fresh()
+                        pr = self.c.fresh("p")
+                        newv, res = t, t2
+                        bind = "do %s <- nth_error %s %s;\ndo %s <- %s;\nlet '(%s, %s) := %s in\n" % (el, bterm, i_, pr, call, t, t2, pr)
+                    b2 = self.c.fresh("b")
+                    root, term = self.place_update(base, b2, env)
+                    return "%sdo %s <- list_upd %s %s %s;\nlet %s := %s in\n%s" % (bind, b2, bterm, i_, newv, var(root), term, k(res))
+                return self.tr_list(e[3], env, with_args_ix, ptys)
+            return self.tr(recv[2], env, with_ix, T("usize"))
 
         def with_args(args):
             r = self.pure(recv, env)
@@ -2747,6 +2815,9 @@ class FnTranslator:
         # a `return` / `?` inside the loop of a &mut self method hands back the current self
         if self.mutself and "self" not in mut and "self" not in free and any(has_kind(p_, ("return", "try")) for p_ in parts if p_ is not None):
             free.append("self")
+        for o_ in getattr(self, "outparams", []):
+            if o_ not in mut and o_ not in free and o_ in env and any(has_kind(p_, ("return", "try")) for p_ in parts if p_ is not None):
+                free.append(o_)
         # canonical order: the order of declaration in the enclosing function (not the order of use)
         decl = ["self"] + [n for n in env if n != "self"]
         mut.sort(key=lambda v: decl.index(v) if v in decl else len(decl))
@@ -2835,7 +2906,7 @@ class FnTranslator:
     def ret_k_is_loop(self):
         return self.break_k is not None
 
-    def tr_for_mut(self, pat_, place, enum, body, env, k):
+    def tr_for_mut(self, pat_, place, enum, body, env, k, reverse=False):
         """for s in X.iter_mut() / for (i, s) in X.iter_mut().enumerate(): the elements are updated in place.
         The loop runs over the old elements; the updated ones are collected in an accumulator that replaces X
         after the loop (and, on an early return from a &mut self method, X = updated ++ current :: untouched)."""
@@ -2871,7 +2942,8 @@ class FnTranslator:
         root0 = place
         while root0[0] in ("field", "index"):
             root0 = root0[1]
-        restore_self = self.mutself and root0[0] == "path" and root0[1] == ["self"]
+        restore_self = (self.mutself and root0[0] == "path" and root0[1] == ["self"]) or \
+            (root0[0] == "path" and len(root0[1]) == 1 and root0[1][0] in self.outparams)
         binders = "".join(" (%s : %s)" % (var(n), self.c.coq_ty(self.var_ty(n, env_l))) for n in free + mut)
         mt = self.tuple_ty(mut, env_l)
         rett = "(loopres %s %s)" % (self.c.coq_ty(self.full_ret), mt)
@@ -2883,7 +2955,8 @@ class FnTranslator:
         def ret_in_loop(v):
             if restore_self:
                 rest = "(map snd l_)" if enum else "l_"
-                root, term = self.place_update(place, "(%s ++ %s :: %s)" % (var(acc), var(sname), rest), env_b)
+                whole = "(%s ++ %s :: %s)" % (var(acc), var(sname), rest)
+                root, term = self.place_update(place, "(rev %s)" % whole if reverse else whole, env_b)
                 return "let %s := %s in\nSome (LoopReturn %s)" % (var(root), term, self.finish(v))
             return "Some (LoopReturn %s)" % self.finish(v)
         self.ret_k = ret_in_loop
@@ -2914,9 +2987,13 @@ class FnTranslator:
             raise Unsupported("iter_mut over a computed place")
         if enum:
             lst = "(enumerate %s)" % lst
+        if reverse:
+            if enum:
+                raise Unsupported("iter_mut().enumerate().rev()")
+            lst = "(rev %s)" % lst              # the updated elements are collected in reverse order
         r = self.c.fresh("r")
         x = self.c.fresh("x")
-        root, term = self.place_update(place, var(acc), env_l)
+        root, term = self.place_update(place, "(rev %s)" % var(acc) if reverse else var(acc), env_l)
         return ("let %s := [] in\ndo %s <- %s%s %s%s;\nmatch %s with\n| LoopReturn %s => %s\n| LoopDone %s =>\nlet %s := %s in\n%s\nend"
                 % (var(acc), r, name, fuel_arg, lst, "".join(" " + var(n) for n in free + mut), r, x, self.propagate(x),
                    self.tuple_of(mut), var(root), term, k("tt")))
@@ -2926,6 +3003,11 @@ class FnTranslator:
             return self.tr_for_mut(pat_, it[1][1], True, body, env, k)
         if it[0] == "mcall" and it[2] == "iter_mut" and not it[3]:
             return self.tr_for_mut(pat_, it[1], False, body, env, k)
+        if it[0] == "mcall" and it[2] == "rev" and not it[3] and it[1][0] == "mcall" and it[1][2] == "iter_mut" and not it[1][3]:
+            return self.tr_for_mut(pat_, it[1][1], False, body, env, k, reverse=True)
+        it_t0 = self.ty_of(it, env)
+        if it[0] == "path" and it_t0 is not None and it_t0[0] == "ty" and it_t0[1] == "mutslice":
+            return self.tr_for_mut(pat_, it, False, body, env, k)
         # iterable: a slice / Vec (possibly through .iter(), & or a [lo..] slice)
         itt = self.ty_of(it, env)
         if not is_list(itt):
@@ -3377,7 +3459,12 @@ MODULES = {
                      + [("BaseRegLan", None, f) for f in ("is_range", "match_char_set", "is_all_chars", "is_full")]
                      + [("BasePattern", None, "len"), ("BasePattern", None, "make")]
                      + [(None, None, f) for f in ("base_patterns", "rigid_match_at", "next_rigid_match", "prev_rigid_match",
-                                                  "char_sets_of_pattern", "rigid_prefix_match", "rigid_suffix_match", "flexible_match")],
+                                                  "char_sets_of_pattern", "rigid_prefix_match", "rigid_suffix_match", "flexible_match")]
+                     + [("BasePattern", None, "set_match"), (None, None, "shift_pattern_start"), (None, None, "find_rigid_matches"),
+                        (None, None, "set_flexible_regions"), (None, None, "match_flexible_patterns"),
+                        (None, None, "find_rigid_matches_rev")],
+        # concat_inclusion itself translates too (re-slicing, &&-chains of in-out calls); it is left out until its link
+        # (which needs the tiling / ordering invariants of InclusionProofs.v on the generated side) is written
     },
     "PartitionGen": {
         "files": ["character_sets.rs", "smt_strings.rs", "errors.rs"],
@@ -3469,8 +3556,8 @@ def translate_module(name, repo):
         rret = ctx.resolve_self(ret, impl) if impl else ret
         rparams = [(n, ctx.resolve_self(t, impl)) for n, t in params]
         full = rret if not mutself else (T(impl) if rret == UNIT else ("tup", [T(impl), rret]))
-        if any(t is not None and t[0] == "ty" and t[1] == "Formatter" for _n, t in rparams):
-            full = ("tup", [T("String"), rret])
+        if any(is_outparam_ty(t) for _n, t in rparams):
+            full = ("tup", [outparam_ret_ty(t) for _n, t in rparams if is_outparam_ty(t)] + [rret])
         ctx.fn_info[(impl, fname)] = {"coq": coq, "ret": rret, "full_ret": full, "pure": None, "fuel": False,
                                       "params": rparams, "mutself": mutself}
         keyname[key] = fname
